@@ -115,6 +115,13 @@ def step (_ : Unit) (ts : List String) : Unit × String :=
         | .ok none => "ho=0"
         | .error e => showFault e
       | _, _ => "bad-op"
+    -- the same stream delivered in two segments cut at `k`: the answer does not depend on `k` (`upgrade_handoff_any_fragmentation`)
+    | ["upgf", h, f, k] => match unhex h, unhex f, k.toNat? with
+      | some hd, some fr, some _ => match upgradeHandOff { inp := hd ++ fr } with
+        | .ok (some (_, s')) => s!"ho=1 rest={brep s'.inp}"
+        | .ok none => "ho=0"
+        | .error e => showFault e
+      | _, _, _ => "bad-op"
     | ["url", h] => match unhex h with
       | some d => match parseUrl d with
         | .ok u => s!"proto={brep u.protocol} host={brep u.host} port={u.port} path={brep u.path}"
